@@ -10,6 +10,9 @@
 (*   [t |-> "num",  h |-> Int]        h counts QUARTERS: 6 stands for 1.5  *)
 (*   [t |-> "big",  e |-> Nat, sg |-> {-1,1}, o |-> Int]   sg*2^e + o       *)
 (*   [t |-> "str",  s |-> Seq(CharId)]                                      *)
+(*   [t |-> "fmt",  f |-> format name]   the canonical string of a format   *)
+(*                       ("2006-01-02", "15:04:05", "2006-01-02T15:04:05Z",  *)
+(*                        "192.0.2.1", "2001:db8::1")                         *)
 (*   [t |-> "arr",  a |-> Seq(Doc)]                                         *)
 (*   [t |-> "obj",  o |-> Seq([k |-> STRING, v |-> Doc])]   keys distinct   *)
 (*                                                                          *)
@@ -61,6 +64,7 @@ JEq(a, b) ==
        [] a.t = "num"  -> a.h = b.h
        [] a.t = "big"  -> a.e = b.e /\ a.sg = b.sg /\ a.o = b.o
        [] a.t = "str"  -> a.s = b.s
+       [] a.t = "fmt"  -> a.f = b.f
        [] a.t = "arr"  -> /\ Len(a.a) = Len(b.a)
                           /\ \A i \in 1..Len(a.a) : JEq(a.a[i], b.a[i])
        [] a.t = "obj"  -> /\ ObjKeys(a) = ObjKeys(b)
@@ -89,6 +93,10 @@ PatMatch(p, cs) ==
     [] p = "p_pct" -> \A i \in DOMAIN cs : cs[i] \in {"a", "b"}
     [] p = "p_esc" -> cs # <<>> /\ \A i \in DOMAIN cs : cs[i] = "a"
     [] OTHER -> TRUE
+
+\* string formats the tool maps to dedicated Go types
+Formats == {"date", "time", "date-time", "ipv4", "ipv6"}
+JFmt(f) == [t |-> "fmt", f |-> f]
 
 (* ---------- three-valued logic ---------- *)
 Acc == "acc"  Rej == "rej"  Un == "un"
@@ -177,7 +185,7 @@ TypedOnly(env, s, d, D) ==
   ELSE IF Has(s, "ref") \/ Has(s, "enum") \/ Has(s, "allOf") \/ Has(s, "anyOf") THEN TRUE
   ELSE LET T == Main(s) IN
     CASE T = "boolean" -> d.t = "bool"
-      [] T = "string"  -> d.t = "str"
+      [] T = "string"  -> d.t \in {"str", "fmt"}
       [] T = "number"  -> d.t \in {"num", "big"}
       [] T = "integer" -> d.t \in {"num", "big"} /\ IsIntegral(d)
       [] T = "array"   -> d.t = "arr" /\ (Has(s, "items") =>
@@ -220,12 +228,19 @@ Valid(env, s, d, D, ctx, lim) ==
                              THEN ValidObj(env, s, d, D) ELSE Acc
          [] T = "null"    -> Rej
          [] T = "boolean" -> B3(d.t = "bool")
-         [] T = "string"  -> IF d.t # "str" THEN Rej
-                             ELSE IF Has(s, "format") THEN Acc   \* only canonical spellings are generated
+         [] T = "string"  -> IF d.t \notin {"str", "fmt"} THEN Rej
+                             ELSE IF Has(s, "format") /\ s.format \in Formats THEN
+                                  \* only the canonical spelling of the same format is judged
+                                  (IF d.t = "fmt" /\ d.f = s.format THEN Acc ELSE Un)
+                             ELSE IF d.t = "fmt" THEN
+                                  (IF Has(s, "minLength") \/ Has(s, "maxLength") \/ Has(s, "pattern") THEN Un ELSE Acc)
                              ELSE B3(StrOK(s, d.s, D))
          [] T = "number"  -> IF d.t \notin {"num", "big"} THEN Rej ELSE B3(NumOK(s, d, D))
          [] T = "integer" -> IF d.t \notin {"num", "big"} THEN Rej
-                             ELSE IF ~IsIntegral(d) THEN Rej ELSE B3(NumOK(s, d, D))
+                             ELSE IF ~IsIntegral(d) THEN
+                                  \* deviation: mapstructure converts any float to int for additional properties
+                                  (IF ctx = "addl" /\ "AddlIntTruncates" \in D THEN Acc ELSE Rej)
+                             ELSE B3(NumOK(s, d, D))
          [] T = "array"   ->
               IF d.t # "arr" THEN Rej
               ELSE LET l == ArrLimits(s, lim, D)
